@@ -85,12 +85,12 @@ def rows_of(df):
     return sorted((d["Task"], d["Start"], d["Finish"], d["State"]) for d in df)
 
 
-def mk_task(i, seq):
-    return S.BaseTask("T" + str(i), ID="t" + str(i), state_record_list=[S.BaseTaskState(v) for v in seq])
+def mk_task(i, seq, same_name=False):
+    return S.BaseTask("New Task" if same_name else "T" + str(i), ID="t" + str(i), state_record_list=[S.BaseTaskState(v) for v in seq])
 
 
-def mk_comp(i, seq):
-    return S.BaseComponent("C" + str(i), ID="c" + str(i), state_record_list=[S.BaseComponentState(v) for v in seq])
+def mk_comp(i, seq, same_name=False):
+    return S.BaseComponent("New Component" if same_name else "C" + str(i), ID="c" + str(i), state_record_list=[S.BaseComponentState(v) for v in seq])
 
 
 def _members(seq, own, other, mix):
@@ -99,12 +99,12 @@ def _members(seq, own, other, mix):
     return [(other if (mix and j % 3 == 1) else own)(v) for j, v in enumerate(seq)]
 
 
-def mk_worker(i, seq, mix=False):
-    return S.BaseWorker("W" + str(i), ID="w" + str(i), state_record_list=_members(seq, S.BaseWorkerState, S.BaseFacilityState, mix))
+def mk_worker(i, seq, mix=False, same_name=False):
+    return S.BaseWorker("New Worker" if same_name else "W" + str(i), ID="w" + str(i), state_record_list=_members(seq, S.BaseWorkerState, S.BaseFacilityState, mix))
 
 
-def mk_fac(i, seq, mix=False):
-    return S.BaseFacility("F" + str(i), ID="f" + str(i), state_record_list=_members(seq, S.BaseFacilityState, S.BaseWorkerState, mix))
+def mk_fac(i, seq, mix=False, same_name=False):
+    return S.BaseFacility("New Facility" if same_name else "F" + str(i), ID="f" + str(i), state_record_list=_members(seq, S.BaseFacilityState, S.BaseWorkerState, mix))
 
 
 def check_encoder(kind, seq, margin, res, mix=False):
@@ -148,6 +148,7 @@ def _case(draw, max_len):
         "ptime": draw(st.integers(0, 500)),
         "last_off": draw(st.integers(0, 10 ** 7)),
         "mix": draw(st.integers(0, 3)) == 0,
+        "same_names": draw(st.integers(0, 3)) == 0,
         "base": draw(st.integers(0, len(BASES) - 1)),
         "tz": draw(st.sampled_from(TZ_HOURS)),
     }
@@ -191,8 +192,10 @@ def check(case):
         check_encoder("fac", seq, margin, res, mix=bool(case.get("mix")))
 
     # 2. chart rows
-    tasks = [mk_task(i, s) for i, s in enumerate(tseqs)]
-    comps = [mk_comp(i, s) for i, s in enumerate(tseqs)]
+    same = bool(case.get("same_names"))  # every object of a kind carries the default name of that kind
+    res.cls("objects_share_their_name", same)
+    tasks = [mk_task(i, s, same) for i, s in enumerate(tseqs)]
+    comps = [mk_comp(i, s, same) for i, s in enumerate(tseqs)]
     for view_ready in (False, True):
         for kind, objs, typ in (("task", tasks, "Task"), ("component", comps, "Component")):
             for o, seq in zip(objs, tseqs):
@@ -222,8 +225,8 @@ def check(case):
                 exp += ref_rows(o.name, seq, 1, "READY", margin, init, unit)
         if rows_of(df) != sorted(exp):
             res.fail("C19.rows", "product rows differ (view_ready=%s): %s vs %s" % (view_ready, rows_of(df), sorted(exp)), sig="product")
-    workers = [mk_worker(i, s, bool(case.get("mix"))) for i, s in enumerate(rseqs)]
-    facs = [mk_fac(i, s, bool(case.get("mix"))) for i, s in enumerate(rseqs)]
+    workers = [mk_worker(i, s, bool(case.get("mix")), same) for i, s in enumerate(rseqs)]
+    facs = [mk_fac(i, s, bool(case.get("mix")), same) for i, s in enumerate(rseqs)]
     res.cls("mixed_enum_members", bool(case.get("mix")))
     team = S.BaseTeam("TM", ID="tm", worker_list=workers)
     wp = S.BaseWorkplace("WP", ID="wp", facility_list=facs)
